@@ -1,7 +1,7 @@
 (* C02 — H2 cases (real go-ds-crdt replicas under a scripted delivery): replay on the set model (code 1) and the
    boolean form of the property on the observation (codes 20..23); recogniser of the known finding S3 (tag 1).
    Evaluated with vm_compute. *)
-From V Require Import Base.Common Model.C02_Set.
+From V Require Import Base.Common Model.C02_Set Model.C02_Net.
 Open Scope N_scope.
 
 Inductive sev :=
@@ -202,19 +202,30 @@ Definition check_scase (c : scase) : list (N * N * N) :=
 Definition failing_set (cs : list scase) : list (N * N * N) := flat_map check_scase cs.
 
 (* ------------------------------------------------------------------ H3: real Consensus peers over libp2p *)
-(* the deltas of the Merkle-DAGs below the heads of the compared peers; every compared peer with its trust configuration
-   (trust-all, trusted_peers as indices) and its pinset once the peers hold the same heads (or the long timeout expired);
-   the peers that issued operations; the CIDs on which an update of the peer nobody trusts showed through *)
-Record npeer := mk_npeer { np_id : N; np_all : bool; np_list : list N; np_final : list (key * val) }.
-Record h3 := mk_h3 { h3_deltas : list delta; h3_peers : list npeer; h3_writers : list N; h3_leak : list key }.
+(* The deltas of the Merkle-DAGs below the heads of the compared peers, who signed each and which blocks it links to;
+   the trust configuration of EVERY peer of the case and the links of the (healed) network; for every compared peer: its
+   pinset at the end, the deltas it merged in the order of its datastore write batches, its own operations each with the
+   block it published (0: nothing), and the calls its PinTracker received; the peers that issued operations; the CIDs on
+   which an update of the peer nobody trusts showed through. *)
+Record npeer := mk_npeer { np_id : N; np_all : bool; np_list : list N; np_final : list (key * val);
+                           np_merged : list bid; np_ops : list (wop * bid); np_calls : list tcall }.
+Record h3 := mk_h3 { h3_deltas : list delta; h3_by : list (bid * N); h3_parents : list (bid * list bid);
+                     h3_trust : list (N * (bool * list N)); h3_links : list (N * N);
+                     h3_peers : list npeer; h3_writers : list N; h3_leak : list key }.
 
 (* IsTrustedPeer (Model/C02_Net.v `trusts`) on the observed configuration *)
 Definition np_trusts (x : npeer) (p : N) : bool := np_all x || (p =? np_id x) || memN p (np_list x).
 
-(* the convergence clause applies to x and y: they trust each other, and they trust the same writers (the hypothesis of
-   crdt_trusting_peers_converge, instantiated by crdt_mutual_trust_same_signers when only x and y write) *)
-Definition comparable (ws : list N) (x y : npeer) : bool :=
-  np_trusts x (np_id y) && np_trusts y (np_id x) && forallb (fun w => Bool.eqb (np_trusts x w) (np_trusts y w)) ws.
+(* the observed configuration as a policy of Model/C02_Net.v (a peer that is not listed trusts only itself) *)
+Definition h3_pol (h : h3) (p : peer) : tpolicy :=
+  match aget p (h3_trust h) with Some (a, l) => mk_tp a l | None => mk_tp false [] end.
+Definition h3_deliverable (h : h3) (s x : N) : bool := deliverable (length (h3_trust h)) (h3_pol h) (h3_links h) s x.
+
+(* the convergence clause applies to x and y: they trust each other, and every writer's updates that can reach one of them
+   can reach the other ("have exchanged all updates": the hypothesis of crdt_trusting_peers_converge) *)
+Definition comparable (h : h3) (x y : npeer) : bool :=
+  np_trusts x (np_id y) && np_trusts y (np_id x)
+  && forallb (fun w => Bool.eqb (h3_deliverable h w (np_id x)) (h3_deliverable h w (np_id y))) (h3_writers h).
 
 Definition differ (membership_only : bool) (k : key) (f0 f : list (key * val)) : bool :=
   if membership_only then negb (Bool.eqb (match aget k f0 with Some _ => true | None => false end)
@@ -222,25 +233,86 @@ Definition differ (membership_only : bool) (k : key) (f0 f : list (key * val)) :
   else negb (optN_eqb (aget k f0) (aget k f)).
 
 (* keys on which some comparable pair of peers disagrees *)
-Fixpoint diverging_pairs (ws : list N) (keys : list key) (ps : list npeer) (membership_only : bool) : list key :=
+Fixpoint diverging_pairs (h : h3) (keys : list key) (ps : list npeer) (membership_only : bool) : list key :=
   match ps with
   | [] => []
   | x :: rest =>
-      filter (fun k => existsb (fun y => comparable ws x y && differ membership_only k (np_final x) (np_final y)) rest) keys
-      ++ diverging_pairs ws keys rest membership_only
+      filter (fun k => existsb (fun y => comparable h x y && differ membership_only k (np_final x) (np_final y)) rest) keys
+      ++ diverging_pairs h keys rest membership_only
   end.
+
+(* ---- model = implementation: which deltas every peer merged (trust + forwarding + the ancestors a merged block drags
+   in), what its own writes published, its pinset and its tracker calls after merging them in the observed order *)
+(* the peers that published block id (two peers that write the same pin over the same heads publish one block) *)
+Definition signers_of (h : h3) (id : bid) : list N := map snd (filter (fun ip => fst ip =? id) (h3_by h)).
+Definition parents_of (h : h3) (id : bid) : list bid := match aget id (h3_parents h) with Some l => l | None => [] end.
+
+(* the blocks x is predicted to merge: those whose signed broadcast is deliverable to x, and everything below them *)
+Fixpoint close_parents (n : nat) (h : h3) (ids : list bid) : list bid :=
+  match n with
+  | O => ids
+  | S k => close_parents k h (nodup N.eq_dec (ids ++ flat_map (parents_of h) ids))
+  end.
+Definition predicted_merged (h : h3) (x : N) : list bid :=
+  close_parents (length (h3_deltas h)) h
+    (map d_id (filter (fun d => existsb (fun sg => h3_deliverable h sg x) (signers_of h (d_id d))) (h3_deltas h))).
+
+Definition tcall_key (c : tcall) : N * N * N :=
+  match c with Track k v => (k, 1, v) | Untrack k => (k, 0, 0) end.
+Definition t3_leb (a b : N * N * N) : bool :=
+  let '(a1, a2, a3) := a in let '(b1, b2, b3) := b in
+  (a1 <? b1) || ((a1 =? b1) && ((a2 <? b2) || ((a2 =? b2) && (a3 <=? b3)))).
+Fixpoint insert_t3 (x : N * N * N) (l : list (N * N * N)) : list (N * N * N) :=
+  match l with [] => [x] | y :: r => if t3_leb x y then x :: l else y :: insert_t3 x r end.
+Definition t3_eqb (a b : N * N * N) : bool :=
+  let '(a1, a2, a3) := a in let '(b1, b2, b3) := b in (a1 =? b1) && (a2 =? b2) && (a3 =? b3).
+(* the calls as a multiset *)
+Definition calls_canon (l : list tcall) : list (N * N * N) := fold_right insert_t3 [] (map tcall_key l).
+
+Definition op_of_block (x : npeer) (id : bid) : option wop :=
+  option_map fst (find (fun ob => snd ob =? id) (np_ops x)).
+
+Definition net_merge_step (h : h3) (x : npeer) (a : mrep * list hook) (id : bid) : mrep * list hook :=
+  let m := fst a in
+  match find_delta (h3_deltas h) id with
+  | None => (mk_mrep (m_st m) (m_height m) true, snd a)
+  | Some d =>
+      let own_bad :=
+        match op_of_block x id with
+        | Some o => negb (delta_matches d (m_height m) (delta_add_op (m_st m) ([], []) o))     (* what the write path builds *)
+        | None => memN (np_id x) (signers_of h id)                                                (* a block of x no operation of x made *)
+        end in
+      let '(m1, hs) := merge_obs m d in
+      (mk_mrep (m_st m1) (m_height m1) (m_bad m1 || own_bad), snd a ++ hs)
+  end.
+
+Definition model_eqb_peer (h : h3) (x : npeer) : bool :=
+  let '(m, hs) := fold_left (net_merge_step h x) (np_merged x) (mk_mrep rempty 0 false, []) in
+  negb (m_bad m)
+  && nodupb (np_merged x)
+  && seteqb (np_merged x) (predicted_merged h (np_id x))
+  && forallb (fun ob => match fst ob, snd ob with
+                        | WPin _ _, 0 => false                         (* a pin always publishes *)
+                        | _, 0 => true
+                        | _, id => memN id (np_merged x)        (* (two peers that publish the very same block share it) *)
+                        end) (np_ops x)
+  && list_eqb kv_eqb (sort_kv (pinset (m_st m))) (sort_kv (np_final x))
+  && list_eqb t3_eqb (calls_canon (map tracker_call hs)) (calls_canon (np_calls x)).
+
+Definition model_eqb_net (h : h3) : bool := forallb (model_eqb_peer h) (h3_peers h).
 
 Definition spec_codes_net (h : h3) : list (N * N) :=
   let keys := nodup N.eq_dec (flat_map (fun d => map fst (d_adds d)) (h3_deltas h) ++ flat_map (fun p => map fst (np_final p)) (h3_peers h)) in
   let hh := mk_h2 (h3_deltas h) [] in
-  let bad20 := diverging_pairs (h3_writers h) keys (h3_peers h) true in
+  let bad20 := diverging_pairs h keys (h3_peers h) true in
   (* a key that is a member at one peer only is reported once, as a membership divergence *)
-  let bad21 := filter (fun k => negb (memN k bad20)) (diverging_pairs (h3_writers h) keys (h3_peers h) false) in
+  let bad21 := filter (fun k => negb (memN k bad20)) (diverging_pairs h keys (h3_peers h) false) in
   (match bad20 with [] => [] | _ => [(20, 0)] end) ++
   (match bad21 with [] => [] | _ => [(21, tag_of hh bad21)] end) ++
   (match h3_leak h with [] => [] | _ => [(24, 0)] end).
 
 Definition ncase := (N * h3)%type.
 Definition check_ncase (c : ncase) : list (N * N * N) :=
-  let '(id, h) := c in map (fun ct => (id, fst ct, snd ct)) (spec_codes_net h).
+  let '(id, h) := c in
+  (if model_eqb_net h then [] else [(id, 1, 0)]) ++ map (fun ct => (id, fst ct, snd ct)) (spec_codes_net h).
 Definition failing_net (cs : list ncase) : list (N * N * N) := flat_map check_ncase cs.
